@@ -31,3 +31,18 @@ Theorem c20_backup_present_refuted :
                 dbf sh = Missing /\ existsb failed ws = true.
 Proof. exists [0; 1; 1; 1; 1; 0; 0]%nat. exact backup_race. Qed.
 Print Assumptions c20_backup_present_refuted.
+
+(* BEGIN PINS (tools/repin.py) *)
+From WTP Require Import Gen.GenPins.
+Module Pins.
+Import String.
+(* The models of this property were transcribed from: luaexec.py:add_empty_sandbox_lua_module.
+   Gen/GenPins.v holds the digests of these functions in the current source (translate/pins.py: syntax tree without
+   docstrings, comments and layout).  A different digest means that the model is no longer known to describe the
+   code; the check then reports the broken tie and looks for a failing input. *)
+Theorem c20_models_describe_the_current_source :
+  pin_add_empty_sandbox_lua_module = "9e563a59cccb26c7"%string.
+Proof. reflexivity. Qed.
+Print Assumptions c20_models_describe_the_current_source.
+End Pins.
+(* END PINS *)
